@@ -34,6 +34,12 @@ pub fn run(ctx: &mut Ctx, replay: Option<&str>) {
             let mut r = ctx.rng.fork(i as u64);
             flows.push(gen_flow(&mut r, &cfg));
         }
+        for f in special_flows(&mut ctx.rng.fork(9_999_991), ctx.tier) {
+            if !f.sel.is_empty() {
+                flows.push(f);
+                ctx.count("stream.special_claim_set");
+            }
+        }
     }
     let mut reqs = vec![];
     let mut runs = vec![];
@@ -85,6 +91,10 @@ pub fn run(ctx: &mut Ctx, replay: Option<&str>) {
         cmp_issue(ctx, &off.issue, &run_off.issue, &resp[*i + 1], true);
         if let (Some(v), Some((va, vr))) = (vi, &run_on.ver) {
             cmp_verify(ctx, va, vr, &resp[*v], &resp[*v + 1]);
+        }
+        if resp[*i + 2].get("hidden").is_none() {
+            ctx.skip_model("spec-answer-missing");
+            continue;
         }
         ctx.oracle_checks += 1;
         let case = on.json();
